@@ -34,12 +34,12 @@ ASSUMPTIONS = ["the network is fault-free in these scenarios: the fault under st
                "SHUTDOWN_TIMEOUT is 3 s"]
 EXPECTED_PROBES = ["awaiting_ack", "awaiting_separate_response", "mid_blockwise", "client_observation", "server_observation",
                    "backlog_queued", "handler_running", "empty_ack_timer_pending", "dedup_entries", "nothing_outstanding",
-                   "awaiting_tcp_response", "tokens_65536_later", "observation_cancelled_by_application", "request_received_on_multicast"]
+                   "awaiting_tcp_response", "tokens_65536_later", "observation_cancelled_by_application", "request_received_on_multicast", "application_errback_raised"]
 
 OTHER_IP = "fd00::3"
 ACTIVITIES = ["t_req_silent", "t_req_acked", "t_backlog", "t_get_big", "t_put_big", "t_observe", "s_req_slow",
               "s_observe", "s_req_fast", "o_req", "t_backlog_acked", "s_token_reuse", "t_req_tcp", "s_req_tcp", "t_req_cancel",
-              "t_many_tokens", "t_obs_cancel", "s_req_mcast"]
+              "t_many_tokens", "t_obs_cancel", "s_req_mcast", "t_obs_raiser"]
 
 
 def gen(r, tier):
@@ -302,6 +302,18 @@ def run_world(scn, shutdown_at, seed):
                         if not rec["req"].observation.cancelled:
                             rec["req"].observation.cancel()
                     loop.at(loop.now + a["d"], cancel_obs)
+            elif k == "t_obs_raiser":
+                # the application's own error callback fails when it is told about the end of its observation: its
+                # problem -- everything else that is outstanding still ends, and shutdown completes
+                msg = Message(code=GET, uri="coap://[%s]/silent?raiser" % peer.addr[0], observe=0)
+                rec = ttrack.start(tag + ".obs", T, msg, handle_blockwise=False)
+
+                def raiser(e):
+                    sim.probe("application_errback_raised")
+                    raise RuntimeError("application callback fails")
+                rec["req"].observation.register_errback(raiser)
+                for j in range(2):
+                    t_request(tag + ".after%d" % j, Message(code=GET, uri="coap://[%s]/silent?ar%d" % (peer2.addr[0], j)))
             elif k == "t_req_tcp":
                 t_request(tag + ".silent", Message(code=GET, uri="coap+tcp://[%s]/silent" % TCP_PEER_IP))
                 t_request(tag + ".late", Message(code=GET, uri="coap+tcp://[%s]/late" % TCP_PEER_IP))
